@@ -10,6 +10,8 @@ save carries a determinacy mark after the `m`):
       blocks were committed depends on goroutine timing, so from here on only status class and the
       content listings are comparable (the manifest text and the store are compared modulo block packing)
   m?  as m~, and a failure script is still active: not even the status is determined
+`hflush` (a background flush whose Keep writes stay in flight while further ops run, until `release`)
+also starts the m~ regime.
 After the mark of a successful save comes 1/0: whether the text satisfies the Lean grammar predicate
 `ValidManifest9` (the plugin cross-checks it against its own, independently written, grammar check).
 -/
@@ -68,6 +70,8 @@ inductive Op9
   | shapes
   | fs (op : Op)
   | flush (op : Op)
+  | hflush (op : Op)
+  | release
   | marshal
   | sync
   | keep (script : List Outcome) (dflt : Outcome)
@@ -123,6 +127,8 @@ def parseOp (s : String) : Option Op9 :=
   | ["removeall", p] => (pathOf? p).map (fun p => Op9.fs (Op.removeAll p))
   | ["flush", p, b] => (pathOf? p).map (fun p => Op9.flush (Op.flush p (b == "1")))
   | ["shapes"] => some Op9.shapes
+  | ["hflush", p, b] => (pathOf? p).map (fun p => Op9.hflush (Op.flush p (b == "1")))
+  | ["release"] => some Op9.release
   | ["marshal"] => some Op9.marshal
   | ["sync"] => some Op9.sync
   | ["keep", sc] => (parseScript sc).map (fun r => Op9.keep r.1 r.2)
@@ -204,6 +210,13 @@ def runOps (max : Nat) (init : List Bytes) : DState → List Op9 → List String
     | Op9.shapes =>
       let l := (project st.s).flatMap (fun d => d.1.files.map (fun f => hexPath (d.1.path ++ [f.1]) ++ "=" ++ fileShape f.2))
       runOps max init st ops (("s" ++ (if st.racy then "~" else "=") ++ ":" ++ joinOr "|" (sortStrings l) ++ ":" ++ storeStr init st.s.world) :: acc)
+    | Op9.hflush o =>
+      -- Keep writes held in flight while further ops run: which segments the background goroutines
+      -- still replace when the writes return is timing the model does not follow; contents do not
+      -- depend on it, so from here on saves are compared modulo block packing
+      let (s', r) := C08.step (implK md5Loc max) st.s o
+      runOps max init { s := s', racy := true, dirty := if st.racy then st.dirty else !scriptClean s'.world } ops (resStr r :: acc)
+    | Op9.release => runOps max init st ops ("ok" :: acc)
     | Op9.keep sc d =>
       let s' := { st.s with world := { st.s.world with script := sc, dflt := d } }
       runOps max init { st with s := s', dirty := !scriptClean s'.world } ops ("ok" :: acc)
